@@ -85,11 +85,13 @@ def api_job(j):
     flows = [c for c in data_cols if c.endswith("_m") and df[c].dtype.kind == "f"]
     k = 0
     alt_runs = {}
-    for c in rnd.sample(flows, min(3, len(flows))) + ["bruttolohn_m", "betreuungskost_m"]:
+    # ... and the group-level flow inputs (the unit letter sits before the group suffix)
+    gflows = [c for c in data_cols if any(c.endswith(f"_m_{g}") for g in ("hh", "sn", "bg", "fg", "eg", "ehe", "wthh")) and df[c].dtype.kind == "f"]
+    for c in rnd.sample(flows, min(3, len(flows))) + ["bruttolohn_m", "betreuungskost_m"] + gflows:
         for u in rnd.sample(["y", "w", "d"], 2):
             k += 1
             d2 = df.drop(columns=[c]).copy()
-            new = c[:-1] + u
+            new = (c[:-1] + u) if c.endswith("_m") else (c[: c.rindex("_m_")] + f"_{u}_" + c[c.rindex("_m_") + 3 :])
             d2[new] = df[c].to_numpy() * 12.0 / F[u]
             try:
                 r2 = gs.compute(d2, date, targets=dt)
